@@ -25,15 +25,22 @@ import (
 	"strings"
 )
 
+type sp2Store struct {
+	idx, sp lin
+	src     lin          // index of the stack slot the value is read from, when it is one
+	loop    *ast.ForStmt // innermost counted loop the store stands in
+}
+
 type sp2State struct {
-	d     lin
-	vars  map[types.Object]lin // integer locals (and the new frame's base) with a known value
-	ipSet bool
-	tags  map[string]bool
+	stores []sp2Store // stores into the stack array: index and stack pointer at that moment
+	d      lin
+	vars   map[types.Object]lin // integer locals (and the new frame's base) with a known value
+	ipSet  bool
+	tags   map[string]bool
 }
 
 func (s *sp2State) clone() *sp2State {
-	n := &sp2State{d: s.d.clone(), vars: map[types.Object]lin{}, ipSet: s.ipSet, tags: map[string]bool{}}
+	n := &sp2State{d: s.d.clone(), vars: map[types.Object]lin{}, ipSet: s.ipSet, tags: map[string]bool{}, stores: append([]sp2Store{}, s.stores...)}
 	for k, v := range s.vars {
 		n.vars[k] = v
 	}
@@ -50,6 +57,7 @@ type sp2Interp struct {
 	sp      *types.Var
 	opVar   map[types.Object]int // local holding operand k
 	bp      *types.Var           // the frame field OpReturn takes the stack pointer from
+	curLoop *ast.ForStmt         // the loop whose body is being read for its stores
 	unknown []string
 	// exits
 	done []*sp2State // completed the instruction (fell out of the arm, break, continue of the dispatch loop)
@@ -81,6 +89,9 @@ func (it *sp2Interp) linOf(s *sp2State, e ast.Expr) lin {
 		return konst(int(k))
 	}
 	if it.isSP(e) {
+		if s.tags["absolute"] {
+			return s.d.clone()
+		}
 		return lin{spTerm: 1}.add(s.d, 1)
 	}
 	switch x := e.(type) {
@@ -119,6 +130,9 @@ func (it *sp2Interp) linOf(s *sp2State, e ast.Expr) lin {
 				return lin{}.add(it.linOf(s, x.Y), int(k))
 			}
 		}
+	}
+	if f, _ := FieldSel(it.p, e); f != nil {
+		return lin{"field:" + it.w.SrcRecv(it.vi.Fn, e): 1}
 	}
 	return lin{"?" + it.w.Src(e): 1}
 }
@@ -221,6 +235,26 @@ func (it *sp2Interp) assign(s *sp2State, x *ast.AssignStmt) {
 				s.ipSet = true
 			}
 		default:
+			if ix, ok := ast.Unparen(l).(*ast.IndexExpr); ok && x.Tok == token.ASSIGN {
+				if arr, _ := FieldSel(it.p, ix.X); arr != nil {
+					if _, isArr := arr.Type().Underlying().(*types.Array); isArr {
+						cur := s.d
+						if !s.tags["absolute"] {
+							cur = lin{spTerm: 1}.add(s.d, 1)
+						}
+						st := sp2Store{idx: it.linOf(s, ix.Index), sp: cur, loop: it.curLoop}
+						if len(x.Rhs) == len(x.Lhs) {
+							if rx, ok := ast.Unparen(x.Rhs[i]).(*ast.IndexExpr); ok {
+								if ra, _ := FieldSel(it.p, rx.X); ra == arr {
+									st.src = it.linOf(s, rx.Index)
+								}
+							}
+						}
+						s.stores = append(s.stores, st)
+					}
+				}
+				continue
+			}
 			if f, _ := FieldSel(it.p, l); f != nil && f == it.bp && x.Tok == token.ASSIGN {
 				s.vars[f] = it.linOf(s, r)
 				continue
@@ -387,6 +421,28 @@ func (it *sp2Interp) stmt(st ast.Stmt, in []*sp2State) sp2Flow {
 				}
 				return true
 			})
+			// read the body once for the stores it makes (the loop counter stays symbolic)
+			if fs, ok := st.(*ast.ForStmt); ok {
+				saved := it.curLoop
+				it.curLoop = fs
+				for _, s := range in {
+					probe := s.clone()
+					if as, ok := fs.Init.(*ast.AssignStmt); ok {
+						for _, l := range as.Lhs {
+							if id, ok := l.(*ast.Ident); ok {
+								delete(probe.vars, it.p.TypesInfo.ObjectOf(id))
+							}
+						}
+					}
+					f := it.block(body.List, []*sp2State{probe})
+					for _, e := range append(append(f.fall, f.cont...), f.brk...) {
+						if len(e.stores) > len(s.stores) {
+							s.stores = append(s.stores, e.stores[len(s.stores):]...)
+						}
+					}
+				}
+				it.curLoop = saved
+			}
 			// a return inside ends the path; the rest falls through unchanged
 			return sp2Flow{fall: in}
 		}
@@ -494,7 +550,13 @@ func ruleSTK2(c *Ctx) {
 			ast.Inspect(st, func(nd ast.Node) bool {
 				as, ok := nd.(*ast.AssignStmt)
 				if ok && len(as.Lhs) == 1 && len(as.Rhs) == 1 && probe.isSP(as.Lhs[0]) {
-					if f, _ := FieldSel(w.Root, as.Rhs[0]); f != nil {
+					rhs := as.Rhs[0]
+					for k := 0; k < 3; k++ {
+						if d := singleDef(w.Root, vi.Fn, rhs); d != nil {
+							rhs = d
+						}
+					}
+					if f, _ := FieldSel(w.Root, rhs); f != nil {
 						bp = f
 					}
 				}
@@ -562,22 +624,17 @@ func ruleSTK2(c *Ctx) {
 				}
 			}
 			// the result goes to the slot below the base: where the callee stood
-			stored := false
-			for _, st := range cc.Body {
-				ast.Inspect(st, func(nd ast.Node) bool {
-					as, ok := nd.(*ast.AssignStmt)
-					if !ok || len(as.Lhs) != 1 {
-						return true
+			stored := len(done) > 0
+			for _, s := range done {
+				okS := false
+				for _, st := range s.stores {
+					if st.idx.eq(s.d.add(konst(-1), 1)) {
+						okS = true
 					}
-					if ix, ok := ast.Unparen(as.Lhs[0]).(*ast.IndexExpr); ok {
-						if b, ok := ast.Unparen(ix.Index).(*ast.BinaryExpr); ok && b.Op == token.SUB && it.isSP(b.X) {
-							if k, ok := ConstInt(it.p, b.Y); ok && k == 1 {
-								stored = true
-							}
-						}
-					}
-					return true
-				})
+				}
+				if !okS {
+					stored = false
+				}
 			}
 			if !stored {
 				probs = append(probs, "the return arm does not store the result in the slot below the frame's base (the callee's slot)")
@@ -647,4 +704,77 @@ func (it *sp2Interp) callArm(done []*sp2State, want lin) []string {
 		}
 	}
 	return probs
+}
+
+// tailReuse interprets the frame-reusing branch of the call arm: on every path
+// that completes it the stack pointer drops by N+1 (the arguments and the
+// callee), and a counted loop from 0 below N copies stack[sp-N+k] to
+// stack[<current frame>.base+k], slot by slot. Returns the problems found.
+func (w *World) tailReuse(vi *VMInfo, body *ast.BlockStmt) []string {
+	sp := w.spField(vi)
+	if sp == nil {
+		return []string{"the stack-pointer field was not found"}
+	}
+	it := &sp2Interp{w: w, p: w.Root, vi: vi, sp: sp, opVar: map[types.Object]int{}}
+	start := &sp2State{d: lin{}, vars: map[types.Object]lin{}, tags: map[string]bool{}}
+	f := it.block(body.List, []*sp2State{start})
+	done := append(append(append([]*sp2State{}, f.fall...), f.brk...), f.cont...)
+	if len(done) == 0 {
+		return []string{"no path through the frame-reusing branch completes"}
+	}
+	var probs []string
+	for _, s := range done {
+		okCopy := false
+		for _, st := range s.stores {
+			if st.loop == nil || st.src == nil {
+				continue
+			}
+			// the loop: k := 0; k < N; k++
+			fs := st.loop
+			as, ok := fs.Init.(*ast.AssignStmt)
+			if !ok || len(as.Lhs) != 1 || len(as.Rhs) != 1 {
+				continue
+			}
+			if k0, ok := ConstInt(w.Root, as.Rhs[0]); !ok || k0 != 0 {
+				continue
+			}
+			kid, ok := as.Lhs[0].(*ast.Ident)
+			if !ok || fs.Cond == nil {
+				continue
+			}
+			cb, ok := ast.Unparen(fs.Cond).(*ast.BinaryExpr)
+			if !ok {
+				continue
+			}
+			cop, cx, cy := lessForm(cb)
+			if cop != token.LSS || w.Src(cx) != kid.Name {
+				continue
+			}
+			kobj := w.Root.TypesInfo.ObjectOf(kid)
+			kterm := fmt.Sprintf("%s@%d", kobj.Name(), kobj.Pos())
+			n := it.linOf(s, cy)
+			// destination: <frame base field> + k
+			dst := st.idx.add(lin{kterm: 1}, -1)
+			isBase := len(dst) == 1
+			for t, v := range dst {
+				if !(v == 1 && strings.HasPrefix(t, "field:") && strings.Contains(t, "curFrame")) {
+					isBase = false
+				}
+			}
+			// source: sp - N + k at that moment
+			src := st.src.add(st.sp, -1).add(n, 1).add(lin{kterm: 1}, -1)
+			if isBase && len(src) == 0 {
+				// and the whole branch pops N+1
+				if s.d.add(n, 1).eq(konst(-1)) {
+					okCopy = true
+				} else {
+					probs = append(probs, fmt.Sprintf("the branch moves the stack pointer by %s, expected -(%s)-1: the arguments and the callee are dropped", s.d, n))
+				}
+			}
+		}
+		if !okCopy && len(probs) == 0 {
+			probs = append(probs, "arguments are not copied slot by slot from sp-N+k to the current frame's base+k for k = 0..N-1 (directly into the stack slots, so cells captured by earlier closures keep their values)")
+		}
+	}
+	return dedupStrings(probs)
 }
